@@ -228,6 +228,8 @@ func (c progCase) setup() string {
 	}
 	return fmt.Sprintf("VAR @vi := %s, @vf := %s, @vs := %s, @vd := %s, @vb := %s, @vk := %s, @vn := NULL, @churn;\n", v[0], v[1], v[2], v[3], v[4], v[5]) +
 		"VAR @ci, @cf, @cs, @cd, @ck, @q1, @q2, @q3, @q4, @q5, @x1, @x2, @x3, @x4, @x5;\n" +
+		// operands of row-count clauses and values handed to commands
+		"VAR @vl := @vk + 1, @vpc := 40, @vf2 := 37.5, @vlr := 1000, @vwt := 30.0, @vcpu := " + fmt.Sprint(c.CPU) + ", @vq := TRUE, @vfalse := FALSE, @vlb := 'LF', @vtz := 'UTC', @vdfmt := '%Y/%m/%d %H', @venv := 'c14 env';\n" +
 		// the arguments of the table objects
 		"VAR @venc := 'UTF8', @vdl := ',', @vtab := '\\t', @vnh := FALSE, @vwn := " + boolWord(c.WN) + ", @vjq := '', @vpos := '" + c.fixedPositions() + "';\n" +
 		"DECLARE tt VIEW (" + colList + ") AS SELECT INTEGER(id), INTEGER(g), INTEGER(i), FLOAT(f), s, DATETIME(d), INTEGER(k), j, BOOLEAN(b) FROM t;\n" +
@@ -240,7 +242,8 @@ func (c progCase) setup() string {
 func (c progCase) probe() string {
 	var b strings.Builder
 	b.WriteString("PRINT '@@b:probe@@';\n")
-	for _, v := range []string{"@vi", "@vf", "@vs", "@vd", "@vb", "@vk", "@vn", "@ci", "@cf", "@cs", "@cd", "@ck", "@venc", "@vdl", "@vtab", "@vnh", "@vwn", "@vjq", "@vpos"} {
+	for _, v := range []string{"@vi", "@vf", "@vs", "@vd", "@vb", "@vk", "@vn", "@ci", "@cf", "@cs", "@cd", "@ck", "@venc", "@vdl", "@vtab", "@vnh", "@vwn", "@vjq", "@vpos",
+		"@vl", "@vpc", "@vf2", "@vlr", "@vwt", "@vcpu", "@vq", "@vfalse", "@vlb", "@vtz", "@vdfmt", "@venv"} {
 		b.WriteString("PRINT " + v + ";\n")
 	}
 	at := []int{0, c.CurAt, c.N - 1}
@@ -661,7 +664,7 @@ func checkProgram(c progCase) (fw.Outcome, *fw.Violation) {
 	}
 	for _, u := range c.Uses {
 		switch {
-		case strings.HasPrefix(u, "op:"), strings.HasPrefix(u, "stmt:"), strings.HasPrefix(u, "rep:"), strings.HasPrefix(u, "src:"), u == "error_then_repeat":
+		case strings.HasPrefix(u, "op:"), strings.HasPrefix(u, "stmt:"), strings.HasPrefix(u, "rep:"), strings.HasPrefix(u, "src:"), strings.HasPrefix(u, "cmd:"), u == "error_then_repeat":
 			o.Classes = append(o.Classes, u)
 		default:
 			o.Classes = append(o.Classes, "fn:"+u)
@@ -907,11 +910,14 @@ func TestC14Programs(t *testing.T) {
 	fw.Run(t, fw.Spec[progCase]{
 		ID: "C14", Name: "programs", Quick: 4800, Thorough: 96000,
 		Gen: genCase, Check: checkProgram,
-		Rule: "programs over a CSV file t (3-6 distinct row tuples repeated to 6-18 rows, or to 160-199 rows with CPU 4), a typed temporary table tt derived from it, variables of every type, an open cursor and variables fetched from it; 1-4 units, each a pure statement list (PRINT, SELECT without FROM, row scans with WHERE, GROUP BY/HAVING with every aggregate incl. LISTAGG/JSON_AGG, every analytic function with partitions and frames, FROM-subqueries, joins, set operators, CTEs, ORDER BY expression/LIMIT/OFFSET, correlated scalar/EXISTS/IN/ANY/ALL subqueries) whose fields call built-in functions drawn uniformly from query.Functions (minus RAND/NOW/CALL) and operators with literals, variables, table cells, cursor values, parameters and placeholders as arguments; each unit is repeated 2-3 times literally, in a WHILE loop, in a function body, as a scalar function or user aggregate called for every row, as a prepared statement, or row by row over a cursor, optionally with an allocation-heavy statement in between; oracles: all executions print the same text and typed rows, rows with equal data give equal values, probes (variables, cursor rows, both tables) before/after are equal, DML on the cached tables afterwards behaves as in a run without the reading section, output under poisoning Discard is identical and sentinel-free, executed trees (incl. prepared statements) DeepEqual a pristine parse; non-trivial = Discard counter increased and a unit was executed >= 2 times; distinct by the set of functions/operators/repetition kinds",
+		Rule: "programs over a CSV file t (3-6 distinct row tuples repeated to 6-18 rows, or to 160-199 rows with CPU 4), a typed temporary table tt derived from it, variables of every type, an open cursor and variables fetched from it; 1-4 units, each a pure statement list (PRINT, SELECT without FROM, row scans with WHERE, GROUP BY/HAVING with every aggregate incl. LISTAGG/JSON_AGG, every analytic function with partitions and frames, FROM-subqueries, joins, set operators, CTEs, recursive CTEs (the recursive term joined with a table, 3-6 levels, UNION [ALL]), LATERAL joins (CROSS JOIN / comma / LEFT JOIN LATERAL over a correlated, also aggregating, subquery), SELECT DISTINCT, ORDER BY expression with every row-count form (LIMIT n [ROWS] [WITH TIES], LIMIT p PERCENT, OFFSET, FETCH FIRST/NEXT n ROWS / p PERCENT [WITH TIES|ONLY]) whose operand is a literal, an expression or a bare / parenthesised variable, NTILE / NTH_VALUE / LAG / LEAD counts from variables, correlated scalar/EXISTS/IN/ANY/ALL subqueries, 'natural' row scans that call built-ins (conversion functions with priority) with arguments that already have the documented type and are owned by a variable, a fetched value or a cell of the typed table, and non-query commands that take a value: SET @@flag TO/= (to the value the flag already has), ADD/REMOVE @@DATETIME_FORMAT, SET @%ENV, ECHO, PRINT, PRINTF ... USING, EXECUTE format USING, with a literal, a (parenthesised) variable or a placeholder) whose fields call built-in functions drawn uniformly from query.Functions (minus RAND/NOW/CALL) and operators with literals, variables, table cells, cursor values, parameters and placeholders as arguments (20% of these atoms in parentheses, double parentheses or under a unary plus, so that the operand node is not an atom while the value is the owner's own object); each unit is repeated 2-3 times literally, in a WHILE loop, in a function body, as a scalar function or user aggregate called for every row, in a function whose last parameter has a DEFAULT expression that the calls omit, in a recursive function (depth 0-3 per row, default depth 2), as a prepared statement, as a cursor declared for a prepared statement that is opened with USING values and fetched NEXT/PRIOR/FIRST/LAST/ABSOLUTE/RELATIVE (positions also from variables) in every repetition, or row by row over a cursor, optionally with an allocation-heavy statement in between; oracles: all executions print the same text and typed rows, rows with equal data give equal values, probes (all variables incl. those handed to row-count clauses and commands, cursor rows, both tables) before/after are equal, DML on the cached tables afterwards behaves as in a run without the reading section, output under poisoning Discard is identical and sentinel-free, executed trees (incl. prepared statements) DeepEqual a pristine parse; non-trivial = Discard counter increased and a unit was executed >= 2 times; distinct by the set of functions/operators/repetition kinds",
 		Assumptions: []string{
 			"RAND, NOW, CALL, environment variables and runtime information are not generated (non-deterministic by documentation)",
 			"GROUP BY / set operator / analytic results are given a total order (ORDER BY on a unique key) because the order of groups is documented as undefined",
 			"divisors of / and % are non-zero literals; count-like arguments (pad lengths, precisions, positions) are drawn from 0..6",
+			"commands set a flag only to the value it already has in the session (the flags stay in force for the rest of the session, so another value would legitimately change later output); the datetime format that is added and removed matches no data; CHDIR, SOURCE and external commands are not generated (they act on the process or the file system outside the case)",
+			"a FETCH beyond the rows leaves the INTO variables unchanged (the manual says NULL): the cursor_prepared unit sets them to NULL at the start of every repetition and nothing is asserted about that difference",
+			"frame offsets of analytic functions are integer tokens in the grammar, no value can be supplied there",
 			"a program that stops with an error is still checked (tree snapshot, poison differential, equal output of completed repetitions) but is not counted as non-trivial",
 		},
 	})
